@@ -1174,6 +1174,37 @@ func checkRound5Small(c *Ctx, id string) {
 		} else {
 			r.Unk("C04.column-comes-down", "(*ui.Prompt).MultilineColumnPrint", "-", "anchor not found")
 		}
+		r.Rule("C04.column-climb-matches-descent", "K7", "displayMultilinePrompts climbs from the last row of the buffer to its first one before MultilineColumnPrint comes back down printing the column: the climb and the descent are counted in the same quantity. A climb by display rows (Engine.lineRows, which counts the rows of wrapped lines) and a descent by buffer lines (Line.Lines(), the number of newlines) agree only while no line of the buffer wraps", 1)
+		if DM, MC := p.Func("(*display.Engine).displayMultilinePrompts"), p.Func("(*ui.Prompt).MultilineColumnPrint"); DM != nil && MC != nil {
+			r.Fn(fnName(DM), fnName(MC))
+			climbRows := false
+			for _, mv := range callsTo(DM, false, "term.MoveCursorUp") {
+				if dependsOn(mv.Common().Args[0], func(v ssa.Value) bool {
+					u, ok := v.(*ssa.UnOp)
+					if !ok || u.Op != token.MUL {
+						return false
+					}
+					t, f, ok := fieldOf(u.X)
+					return ok && t == "display.Engine" && f == "lineRows"
+				}) {
+					climbRows = true
+				}
+			}
+			descentLines := false
+			eachInstr(MC, func(in ssa.Instruction) {
+				if cl, ok := in.(*ssa.Call); ok && calleeName(cl) == "(*core.Line).Lines" {
+					descentLines = true
+				}
+			})
+			pos := p.Pos(DM.Pos())
+			if climbRows && descentLines {
+				r.Bad("C04.column-climb-matches-descent", "(*display.Engine).displayMultilinePrompts:climb/descent", pos, "the climb is Engine.lineRows display rows and the descent Line.Lines() buffer lines: with a wrapped line in a buffer of three lines or more, the column and the secondary prompt are printed too high, over the text, and the last rows are erased")
+			} else {
+				r.OK("C04.column-climb-matches-descent", "(*display.Engine).displayMultilinePrompts:climb/descent", pos, "the climb and the descent are not counted in different quantities")
+			}
+		} else {
+			r.Unk("C04.column-climb-matches-descent", "displayMultilinePrompts / MultilineColumnPrint", "-", "anchor not found")
+		}
 		r.Rule("C04.wrapped-cell-cleared", "K3", "what core.DisplayLine prints of a buffer line went through strutil.ClearWrapped, and ClearWrapped writes the clear-to-end-of-row sequence under a test against the terminal width: a double-width character that does not fit in the last column is wrapped whole by the terminal, which leaves that column showing what it showed before", 2)
 		if DL, CW := p.Func("core.DisplayLine"), p.Func("strutil.ClearWrapped"); DL != nil && CW != nil {
 			r.Fn(fnName(DL), fnName(CW))
@@ -1297,54 +1328,6 @@ func checkRound5Small(c *Ctx, id string) {
 			r.Check(w == nil, "C04.comp-rows-fresh", "completion.Display:exits", pos, "usedY is stored on every path", "an exit of Display (nothing to show, or display skipped) leaves usedY at the row count of the previous list: Refresh then moves the cursor up that many rows too many")
 		} else {
 			r.Unk("C04.comp-rows-fresh", "completion.Display", "-", "anchor not found")
-		}
-	case "C01":
-		r.Rule("C01.undo-pos-clamped", "K4", "every store that steps lineHistory.pos up (Undo) is followed by the test `pos > len(items)` whose taken branch stores len(items): Redo indexes items[len(items)-pos] and relies on pos never exceeding the number of items", 1)
-		n := 0
-		for _, f := range p.RepoFuncs {
-			eachInstr(f, func(in ssa.Instruction) {
-				st, ok := isFieldStore(in, "history.lineHistory", "pos")
-				if !ok {
-					return
-				}
-				bo, isBo := st.Val.(*ssa.BinOp)
-				if !isBo || bo.Op != token.ADD || !isFieldLoad(stripConv(bo.X), "history.lineHistory", "pos") {
-					return
-				}
-				n++
-				r.Fn(fnName(f))
-				clamped := false
-				eachInstr(f, func(x ssa.Instruction) {
-					iff, ok := x.(*ssa.If)
-					if !ok || !instrDominates(in, x) {
-						return
-					}
-					rel, ok := relOf(iff.Cond, true)
-					if !ok || rel.Op != token.GTR || !isFieldLoad(stripConv(rel.X), "history.lineHistory", "pos") {
-						return
-					}
-					cl, isCall := rel.Y.(*ssa.Call)
-					if !isCall {
-						return
-					}
-					if b, isB := cl.Call.Value.(*ssa.Builtin); !isB || b.Name() != "len" || !isFieldLoad(stripConv(cl.Call.Args[0]), "history.lineHistory", "items") {
-						return
-					}
-					for _, y := range iff.Block().Succs[0].Instrs {
-						if s2, ok := isFieldStore(y, "history.lineHistory", "pos"); ok {
-							if c2, isCall := s2.Val.(*ssa.Call); isCall {
-								if b, isB := c2.Call.Value.(*ssa.Builtin); isB && b.Name() == "len" {
-									clamped = true
-								}
-							}
-						}
-					}
-				})
-				r.Check(clamped, "C01.undo-pos-clamped", fmt.Sprintf("%s:pos++#%d", fnName(f), n), p.IPos(in), "clamped to len(items)", "the undo position is stepped up without being clamped to the number of items: after more undos than there are states, redo indexes items[len-pos] with a negative index and panics")
-			})
-		}
-		if n == 0 {
-			r.Unk("C01.undo-pos-clamped", "lineHistory.pos++", "-", "no increment of lineHistory.pos found: anchor changed")
 		}
 	}
 }
@@ -1805,4 +1788,42 @@ func checkSuggestionNotUnderOperator(c *Ctx, rule string) {
 func isWidthCall(v ssa.Value) bool {
 	cl, ok := v.(*ssa.Call)
 	return ok && calleeName(cl) == "term.GetWidth"
+}
+
+// checkReadersAgreeOnOrder: C03.readers-agree-on-order. A key sequence bound to a
+// macro behaves as if the macro's keys had been typed in its place: every reader of
+// the key stack has to serve the fed keys and the typed-ahead keys in one order.
+func checkReadersAgreeOnOrder(c *Ctx, rule string) {
+	p, r := c.P, c.R
+	r.Rule(rule, "K5", "the readers of the key stack — the dispatcher's PopKey / PeekKey and the commands' ReadKey — consult the keys fed by a macro (Keys.macroKeys) and the keys typed ahead (Keys.buf) in the same order: otherwise the place of a macro's keys among the typed ones depends on who reads next, and a macro followed by type-ahead in the same read does not behave as if its keys had been typed there", 1)
+	order := func(f *ssa.Function) []string {
+		var out []string
+		for _, b := range f.Blocks {
+			for _, in := range b.Instrs {
+				bo, ok := in.(*ssa.BinOp)
+				if !ok || (bo.Op != token.GTR && bo.Op != token.NEQ && bo.Op != token.EQL) || !isLenCall(bo.X) {
+					continue
+				}
+				if _, fld, ok := fieldRead(bo.X.(*ssa.Call).Call.Args[0]); ok && (fld == "buf" || fld == "macroKeys") {
+					if len(out) == 0 || out[len(out)-1] != fld {
+						out = append(out, fld)
+					}
+				}
+			}
+		}
+		return out
+	}
+	PK, RK := p.Func("core.PopKey"), p.Func("(*core.Keys).ReadKey")
+	if PK == nil || RK == nil {
+		r.Unk(rule, "core.PopKey / (*core.Keys).ReadKey", "-", "anchor not found")
+		return
+	}
+	r.Fn(fnName(PK), fnName(RK))
+	a, b := order(PK), order(RK)
+	if len(a) < 2 || len(b) < 2 {
+		r.Unk(rule, "core.PopKey~(*core.Keys).ReadKey", p.Pos(RK.Pos()), fmt.Sprintf("source tests not found (PopKey %v, ReadKey %v): anchor changed", a, b))
+		return
+	}
+	same := a[0] == b[0]
+	r.Check(same, rule, "core.PopKey~(*core.Keys).ReadKey", p.Pos(RK.Pos()), "same order: "+strings.Join(a[:2], ","), fmt.Sprintf("PopKey / PeekKey serve %s first and ReadKey serves %s first: typed-ahead keys overtake the keys a macro fed (the dispatcher reads the typed ones first), except for a command's argument (ReadKey reads the fed ones first)", a[0], b[0]))
 }
